@@ -10,6 +10,7 @@ Part D: close effects under ALL interleavings (any number of threads, any progra
         variant): resources are released at most once (`close_effects_once_partial`).
 -/
 import Wz.Proofs.C10_Refine
+import Wz.Gen.C10Sections
 
 namespace Wz.C10
 open Wz.Model.Registry
@@ -648,6 +649,17 @@ example : (Impl.run Cfg.repaired Impl.init [.instantiate 1 1 .none, .instantiate
     .instantiate 3 1 .host, .lookup 1, .closeRuntime 0, .isClosed 3, .hostCompile true]).2 =
   (Reg.run Reg.init [.instantiate 1 1 .none, .instantiate 2 1 .bin, .lookup 1, .closeModule 1 3,
     .instantiate 3 1 .host, .lookup 1, .closeRuntime 0, .isClosed 3, .hostCompile true]).2 := by decide
+
+/-! ## Part E (tie A): the atomic actions of the model are single critical sections in the source -/
+
+/-- Regenerated from the source on every run (`translate/facts/c10_sections`): each of the four functions
+the model treats as ONE atomic action takes `Store.mux` in its first statement, defers the release in its
+second, and contains no other Lock/Unlock. A change that splits one of these critical sections (or adds a
+second one) breaks this obligation. -/
+theorem critical_sections_atomic :
+    Wz.Gen.C10Sections.table =
+      [("Store.registerModule", 1, 1, true, true), ("Store.deleteModule", 1, 1, true, true),
+       ("Store.module", 1, 1, true, true), ("Store.CloseWithExitCode", 1, 1, true, true)] := by decide
 
 /-! ## Part D: close effects under all interleavings -/
 
